@@ -89,6 +89,9 @@ func genCase(r *rand.Rand, idx int) *ccase {
 	if c.DB.Mode == "err-row" || c.DB.Mode == "cancel-row" {
 		c.DB.ErrAt = []int{0, 1, 2, 50, 99, 100, 101, 5000}[r.Intn(8)]
 	}
+	if r.Intn(40) == 0 {
+		c.DB.Mode, c.DB.ErrAt, c.DB.Twist = "err-schema", r.Intn(2), ""
+	}
 	switch r.Intn(12) {
 	case 0:
 		c.Client = "abandon-early"
